@@ -2,6 +2,7 @@ import Ach.Driver.Hex
 import Ach.Model.Layout
 import Ach.Generated.Layouts
 import Ach.Model.Mask
+import Ach.Model.CreateDriver
 /-!
 `achmodel`: the executable model behind the correspondence check.  Reads one
 operation per line on stdin, writes one result line per operation.
@@ -54,6 +55,13 @@ def step (cx : Ctx) (line : String) : String :=
     match hexToStr h with
     | some s => strToHex (validateSettlementDate s)
     | none => "bad-op"
+  | "create" :: args =>
+    -- "create auto …": use the slice expression found in the source today
+    (match args with
+     | "auto" :: rest => (match removeStride with
+        | some m => Ach.CreateDriver.run (toString m :: rest)
+        | none => "nomodel")
+     | _ => Ach.CreateDriver.run args)
   | ["mask", "number", h] =>
     match hexToStr h with
     | some s => bytesToHex (ByteArray.mk (maskNumber s).toArray)
